@@ -30,7 +30,7 @@ BOUNDS = {
              "triples from {1,2,3} (stride; majority with blocks of <= 9 voxels); uint8/uint16/uint32 all values (average), + uint64 (majority/stride); "
              "outside value None or symbolic integer 0..255; float32 averaging: single output voxel, all inputs in one "
              "binade (mantissas symbolic, exponent E in {-3,0,10})",
-    "thorough": "Z,Y,X in 1..5 (60 sampled shapes + all <=3); majority blocks up to 27 voxels with a 600 s query budget",
+    "thorough": "Z,Y,X in 1..5 (25 sampled shapes + all <=3); majority blocks up to 18 voxels with a 120 s query budget",
 }
 OUTSIDE = ["uint64 averaging above 2^53 (float64 work type cannot hold the values: documented NumPy limitation)",
            "float32 averaging with inputs spanning several binades (sums not exactly representable in float64)",
@@ -44,7 +44,7 @@ def configs(tier, seed):
     if tier == "thorough":
         extra = [s for s in itertools.product((1, 2, 3, 4, 5), repeat=3) if max(s) > 3]
         rnd.shuffle(extra)
-        shapes += extra[:60]
+        shapes += extra[:25]
     dts = ["uint8", "uint16", "uint32"]
     n = 0
     for shp in shapes:
@@ -61,9 +61,9 @@ def configs(tier, seed):
             if tier == "quick" and (n % 3):
                 continue
             blk = min(shp[0], f[2]) * min(shp[1], f[1]) * min(shp[2], f[0])
-            if blk > (9 if tier == "quick" else 27):
+            if blk > (9 if tier == "quick" else 18):
                 continue    # blocks of 18/27 voxels: the counting query is not decided within the quick budget
-            out.append(dict(harness="majority", timeout_ms=(20000 if tier == "quick" else 600000), dtype=("uint8", "uint32", "uint64", "uint16")[n % 4], C=1, shape=list(shp),
+            out.append(dict(harness="majority", timeout_ms=(20000 if tier == "quick" else 120000), dtype=("uint8", "uint32", "uint64", "uint16")[n % 4], C=1, shape=list(shp),
                             factors=list(f), cost=2 + shp[0] * shp[1] * shp[2] // 4, wall=600))
             out.append(dict(harness="stride", dtype=("uint8", "uint32", "uint64", "float32")[n % 4], C=1 + n % 2,
                             shape=list(shp), factors=list(f), cost=1))
